@@ -378,6 +378,11 @@ class BalancedMarket(Strategy):
             if battery.parent != gc_id:
                 continue
             avail_power = gc.get_current_load(exclude=discharging_stations)
+            if num_cheap_ts > 0:
+                # forecast of current timestep knows neither surplus charging nor other batteries:
+                # not more than what is left at the GC right now
+                timesteps[0]["power"] = min(
+                    timesteps[0]["power"], gc.cur_max_power - gc.get_current_load())
 
             old_soc = battery.soc
             # default: use surplus from local generation to charge batteries
